@@ -367,7 +367,12 @@ func (c15) Gen(rng *rand.Rand, tier string, i int) *sim.Scenario {
 				if op == "read" {
 					k = between(rng, 1, 3)
 				}
-				sc.Faults = append(sc.Faults, sim.Fault{Actor: a, Op: op, K: k, Class: "fatal"})
+				ft := sim.Fault{Actor: a, Op: op, K: k, Class: "fatal"}
+				if op == "write" && chance(rng, 0.4) {
+					// fails after a while: the other runs and probes finish before, around or after it
+					ft.Class, ft.Us = "slowfatal", int64(between(rng, 100, c.TimeoutMs*700))
+				}
+				sc.Faults = append(sc.Faults, ft)
 			}
 		}
 	}
